@@ -4,13 +4,17 @@
 //
 //	ID       p1 point, w10 path, a20 area, r5 relation, c7 collection        (namespace "x")
 //	feature  <id>=<refs>[;<attr>…]
-//	         refs   comma separated IDs; an area separates its polygons with "|"
+//	         refs   comma separated IDs; an area separates its polygons with "|", a polygon "*" is an explicit
+//	                polygon (geometry, no path IDs); a path element "@<k>" is an inline lat/lng at slot k
 //	         attrs  loc=<k>   point: location slot k on a small circle (default: the ID's value);
 //	                          slots increase counter-clockwise, so a closed path over increasing
 //	                          slots is a valid counter-clockwise loop
 //	                noloc     point without a location (no point tag)
 //	                v=<word>  a plain tag "v" (tells the layers' versions of a feature apart)
 //	                t=<word>  a search-indexed tag "#t"
+//	                kf=<p|t|m> collection: keys are plain b6.FeatureID / typed IDs (AreaID, RelationID,
+//	                          CollectionID where the kind has one) / alternating
+//	                vf=i      collection: values are IDs too (typed like the keys), not integers
 package skelx
 
 import (
@@ -96,6 +100,21 @@ func SlotLatLng(k int) s2.LatLng {
 	return s2.LatLngFromDegrees(51.5+r*math.Sin(a), -0.1+r*math.Cos(a)/math.Cos(51.5*math.Pi/180))
 }
 
+// RefLatLng is the location a world reports for a point FEATURE at slot k: the point tag goes through
+// its text form, which costs the last digits (an inline path element at slot k keeps SlotLatLng(k)).
+func RefLatLng(k int) s2.LatLng {
+	ll, err := b6.LatLngFromString(b6.NewPointExpressionFromLatLng(SlotLatLng(k)).String())
+	if err != nil {
+		panic(err)
+	}
+	return ll
+}
+
+// InlineLatLng is the location of the inline path element "@k": slot k of an outer ring that point
+// features never use, so that an inline element and a referenced point never share a location (the
+// location of a point feature goes through text and may or may not keep its last digits).
+func InlineLatLng(k int) s2.LatLng { return SlotLatLng(3*Slots + k) }
+
 // SlotE7 renders a location as E7 integers.
 func E7(ll s2.LatLng) string {
 	return fmt.Sprintf("%d/%d", int64(math.Round(ll.Lat.Degrees()*1e7)), int64(math.Round(ll.Lng.Degrees()*1e7)))
@@ -105,6 +124,7 @@ func E7(ll s2.LatLng) string {
 type Spec struct {
 	ID    b6.FeatureID
 	Polys [][]b6.FeatureID // references; one group unless the feature is an area with several polygons
+	Raw   [][]string       // the same groups as written: "@k" inline points and "*" polygons included
 	Attrs map[string]string
 	Text  string
 }
@@ -131,8 +151,13 @@ func ParseSpec(tok string) (Spec, error) {
 	s.ID = id
 	for _, poly := range strings.Split(head[1], "|") {
 		var ids []b6.FeatureID
+		var raw []string
 		for _, r := range strings.Split(poly, ",") {
 			if r == "" {
+				continue
+			}
+			raw = append(raw, r)
+			if r[0] == '@' || r == "*" {
 				continue
 			}
 			rid, ok := ParseID(r)
@@ -142,6 +167,7 @@ func ParseSpec(tok string) (Spec, error) {
 			ids = append(ids, rid)
 		}
 		s.Polys = append(s.Polys, ids)
+		s.Raw = append(s.Raw, raw)
 	}
 	for _, a := range parts[1:] {
 		kv := strings.SplitN(a, "=", 2)
@@ -176,8 +202,17 @@ func Build(s Spec) ingest.Feature {
 				f.AddTag(b6.Tag{Key: b6.PointTag, Value: b6.NewPointExpressionFromLatLng(SlotLatLng(k))})
 			}
 		}
-		for i, r := range s.Refs() {
-			f.ModifyOrAddTagAt(b6.Tag{Key: b6.PathTag, Value: b6.NewFeatureIDExpression(r)}, i)
+		i := 0
+		for _, group := range s.Raw {
+			for _, r := range group {
+				if r[0] == '@' { // inline point
+					k, _ := strconv.Atoi(r[1:])
+					f.ModifyOrAddTagAt(b6.Tag{Key: b6.PathTag, Value: b6.NewPointExpressionFromLatLng(InlineLatLng(k))}, i)
+				} else {
+					f.ModifyOrAddTagAt(b6.Tag{Key: b6.PathTag, Value: b6.NewFeatureIDExpression(MustID(r))}, i)
+				}
+				i++
+			}
 		}
 		for _, t := range extra {
 			f.AddTag(t)
@@ -187,6 +222,10 @@ func Build(s Spec) ingest.Feature {
 		a := ingest.NewAreaFeature(len(s.Polys))
 		a.AreaID = s.ID.ToAreaID()
 		for i, p := range s.Polys {
+			if len(s.Raw[i]) == 1 && s.Raw[i][0] == "*" { // explicit polygon
+				a.SetPolygon(i, ExplicitPolygon())
+				continue
+			}
 			ids := make([]b6.FeatureID, len(p))
 			copy(ids, p)
 			a.SetPathIDs(i, ids)
@@ -204,13 +243,83 @@ func Build(s Spec) ingest.Feature {
 		return r
 	case b6.FeatureTypeCollection:
 		c := &ingest.CollectionFeature{CollectionID: s.ID.ToCollectionID(), Tags: extra}
-		for i, m := range s.Refs() {
-			c.Keys = append(c.Keys, m)
-			c.Values = append(c.Values, i)
+		refs := s.Refs()
+		for i, m := range refs {
+			typed := s.Attrs["kf"] == "t" || (s.Attrs["kf"] == "m" && i%2 == 0)
+			c.Keys = append(c.Keys, Flavoured(m, typed))
+			if s.Attrs["vf"] == "i" {
+				c.Values = append(c.Values, Flavoured(refs[len(refs)-1-i], typed))
+			} else {
+				c.Values = append(c.Values, i)
+			}
 		}
 		return c
 	}
 	panic("skelx: cannot build " + s.Text)
+}
+
+// Flavoured returns the ID as a plain b6.FeatureID, or as the typed ID of its kind where one exists
+// (b6.AreaID, b6.RelationID, b6.CollectionID): every flavour is a b6.Identifiable.
+func Flavoured(id b6.FeatureID, typed bool) interface{} {
+	if typed {
+		switch id.Type {
+		case b6.FeatureTypeArea:
+			return id.ToAreaID()
+		case b6.FeatureTypeRelation:
+			return id.ToRelationID()
+		case b6.FeatureTypeCollection:
+			return id.ToCollectionID()
+		}
+	}
+	return id
+}
+
+// ExplicitPolygon is the geometry of a "*" polygon of an area.
+func ExplicitPolygon() *s2.Polygon {
+	pts := []s2.Point{s2.PointFromLatLng(SlotLatLng(1)), s2.PointFromLatLng(SlotLatLng(9)), s2.PointFromLatLng(SlotLatLng(17))}
+	return s2.PolygonFromLoops([]*s2.Loop{s2.LoopFromPoints(pts)})
+}
+
+// GeoToken renders "<id>=<elements>" with the geometry structure: a path lists its elements in order
+// ("@<slot>" for an inline point, "@?" when the location is not a slot), an area its polygons
+// separated by "|" ("*" for an explicit polygon); other features as RefsToken.
+func GeoToken(f b6.Feature, slotOf func(s2.LatLng) (int, bool)) string {
+	switch f.FeatureID().Type {
+	case b6.FeatureTypePath:
+		if p, ok := f.(b6.PhysicalFeature); ok {
+			var es []string
+			for i := 0; i < p.GeometryLen(); i++ {
+				if r := f.Reference(i).Source(); r.IsValid() {
+					es = append(es, RenderID(r))
+				} else if k, ok := slotOf(s2.LatLngFromPoint(p.PointAt(i))); ok && k >= 3*Slots {
+					es = append(es, fmt.Sprintf("@%d", k-3*Slots))
+				} else {
+					es = append(es, "@?")
+				}
+			}
+			return RenderID(f.FeatureID()) + "=" + strings.Join(es, ",")
+		}
+	case b6.FeatureTypeArea:
+		if a, ok := f.(interface {
+			Len() int
+			PathIDs(i int) ([]b6.FeatureID, bool)
+		}); ok {
+			var ps []string
+			for i := 0; i < a.Len(); i++ {
+				if ids, ok := a.PathIDs(i); ok {
+					es := make([]string, len(ids))
+					for j, id := range ids {
+						es[j] = RenderID(id)
+					}
+					ps = append(ps, strings.Join(es, ","))
+				} else {
+					ps = append(ps, "*")
+				}
+			}
+			return RenderID(f.FeatureID()) + "=" + strings.Join(ps, "|")
+		}
+	}
+	return RefsToken(f, false)
 }
 
 func MustBuild(tok string) ingest.Feature {
